@@ -212,6 +212,14 @@ def flag_scenarios(draw):
     for _ in range(src.int(0, 3)):
         k += 1
         reads.append(S.unmapped_read("r%d" % k))
+    # read names with characters that the SAM specification allows and that mean something elsewhere (comment
+    # sign, separators); a read keeps its name in all its records
+    if src.bool(0.25):
+        ren = {}
+        for r in reads:
+            if r["n"] not in ren:
+                ren[r["n"]] = src.choice(["#", "#", "@", "", "", "", "="]) + r["n"] + src.choice(["", "", "/1", ";x", "|a"])
+            r["n"] = ren[r["n"]]
     lens = {c[0]: c[1] for c in sc["chroms"]}
     sc["reads"] = [r for r in reads if r.get("c") is None or R.cigar_blocks(r["p"], r["cg"])[-1][1] + 45 < lens[r["c"]]]
     sc["opts"] = ["--data_type", src.choice(S.DATA_TYPES), "--no_gzip", "--threads", str(src.choice([1, 2])),
